@@ -337,6 +337,7 @@ func init() {
 				{Name: "counts-queue", Cfg: cfg, Alphabet: c04Alphabet(q), Depth: d, Drain: true, MaxStates: 400000},
 				{Name: "counts-ramp-7-holders", Cfg: cfg, Ramp: rampHolders(7), Alphabet: rampAlphabet(7), Depth: 3, Drain: true, DrainFor: 70 * sec},
 				{Name: "counts-ramp-9-waiters", Cfg: cfg, Ramp: rampWaiters(9, true), Alphabet: rampWaitAlphabet(9), Depth: 3, Drain: true, DrainFor: 70 * sec},
+				depthCeilingSpec("counts-depth-ceiling", cfg, 4, true),
 			}, Oracles: []SeqOracle{OracleRef(RefOpts{Counts: true, Prefix: "C17"}), SeqOracleC17}}
 		},
 		rule:        "schedule DFS of the C01/C03/C04 scenarios, each ending in a drain (unlock all, clock advanced past the 8-step re-check ladder and the delayed manager removal); STATE counters are compared with a census of the engine's live structures at three quiescent points; non-trivial = at least two client threads answered",
